@@ -373,7 +373,8 @@ def attrs(o: t.Any) -> t.Dict[str, t.Any]:
 
 def public_view(session: t.Any) -> t.Any:
     """What a caller can see of a session without calling anything: its public instance attributes."""
-    return tuple(sorted(((k, freeze(v)) for k, v in attrs(session).items() if not k.startswith("_")), key=repr))
+    noise = session_noise(type(session)) if isinstance(session, sansldap.LDAPSession) else frozenset()
+    return tuple(sorted(((k, freeze(v)) for k, v in attrs(session).items() if not k.startswith("_") and (k,) not in noise), key=repr))
 
 
 def protocol_view(session: t.Any) -> t.Any:
